@@ -19,6 +19,11 @@ CHECKS = {
    text="Model checking: MemLimit.tla (the est = 100*operands + 200*frames check before every step, script calls pushing frames, natives nesting interpreter loops under a depth cap) is explored exhaustively for M set/unset: MemBound, HostBound (violated without the cap: non-vacuity), finiteness. JsVM.tla is run by TLC over the REAL bytecode of every enumerated statement body (inner construct x exit kind x enclosure x place; quick ~830 bodies / 2400 functions, thorough the full valid product): both outcomes of every branch, an exception edge from every instruction that can raise, invariants no-underflow, valid targets, end/return cleanliness, handler balance and bounded depth - a universally quantified statement over iteration counts. Conformance: each body runs N = 1, 30/50, 200/2000 times under a small fixed M with the hook recording operand/handler/frame depth at every backward jump; TLC judges steadiness at every loop head, equal outcome and equal peak depths for all N, never MemoryLimitError. Recursion shapes (self, mutual, each callback-taking built-in, accessors, conversions, call/apply/bind, new, eval, Function) x M: TLC judges MemoryLimitError after at most M/200 + 2 levels, never a host error.",
    design_ref="DESIGN.md 5/C02",
    note="Trusted: TLC; the stack-effect table in JsVM.tla (transcribed from VM._execute_opcode; an unknown opcode is reported as bad:opcode); the hook. Static findings are violations only when a real run confirms them (otherwise listed as static_only in evidence). Bytes and seconds are not judged (steps and depths are); heap data is documented as unaccounted."),
+ "C01": dict(
+   technique="TLA+ state machine of the deadline enforcement (TimeLimit.tla) model-checked by TLC; scripts enumerated by TLC (construct x place x wrapper x T x M) run under a virtual clock, late steps per loop kind judged by TLC",
+   text="Model checking: TimeLimit.tla models the interpreter loops that can nest on the host stack (main, callback loop, nested VM, regex matcher, lookaround sub-matcher), their shared counters and poll points over a virtual clock; TLC explores all nestings up to depth 4-5 and every position of the deadline relative to every counter: LateBound (at most one poll interval of VM instructions and of regex steps after the deadline), NeverCaught, NoLateFinish; the three pre-fix behaviours (fresh counters per nested VM / per regex attempt, catchable limit error) each violate their invariant (non-vacuity). Conformance: TLC enumerates keep-running constructs (while/for/do-while/labelled continue/self and mutual recursion/catastrophic regex/many short regex calls/lookahead/nested eval loops) x 24 places where script code runs (top level, function, arrow, constructor, every callback-taking array method, sort comparator, getter, setter, valueOf, call/apply/bind, indirect eval, new Function, eval in eval, callback in callback) x 7 try/catch/finally wrappers x T x memory_limit (quick 830, thorough ~6700 scripts) plus finite twins that must not be stopped; every script runs with time.monotonic replaced by a clock that advances one tick per hooked instruction/regex step; TLC judges outcome = TimeLimitError, late VM steps <= 1000 + 2, late regex steps <= 100 + 2.",
+   design_ref="DESIGN.md 5/C01",
+   note="Trusted: TLC, the hook sites (one per interpreter/regex loop; a loop added without a hook executes unseen steps - the wall-clock watchdog then reports hang), the virtual clock substitution. Wall-clock seconds are recorded, not judged; a single native operation on a huge operand is outside the property's scope."),
 }
 NOT_APPLICABLE = {}
 ALL = ["C%02d" % i for i in range(1, 21)]
